@@ -425,6 +425,18 @@ func (s *levelsController) levelTargets() targets {
 		t.baseLevel++
 	}
 
+	// The base level must never be below a non-empty level. The size loop above derives it from
+	// the size of the last level only; when that level shrinks (deletes, expiry, drops) while a
+	// level above it still holds tables, the computed base level would move below that level. L0
+	// would then be compacted past it, placing newer versions underneath older ones and dropping
+	// tombstones (no overlap further down) whose older versions are still above them.
+	for i := 1; i < t.baseLevel; i++ {
+		if s.levels[i].getTotalSize() > 0 {
+			t.baseLevel = i
+			break
+		}
+	}
+
 	// The base level must never be L0. For a very large LSM tree the size loop
 	// above can fail to assign a base level: it only sets baseLevel where
 	// adjust(dbSize) <= BaseLevelSize, and the smallest level it checks (L1)
